@@ -105,6 +105,25 @@ Ordered(x, y) ==
 RacyPairs(a, b) == {<<x, y>> \in Foot[a] \X Foot[b] : Conflict(x, y) /\ ~Ordered(x, y)}
 Shares(a, b) == \E x \in Foot[a], y \in Foot[b] : Conflict(x, y)
 
+\* ---- lock order ------------------------------------------------------------------------
+\* Nested acquisitions <<outer, inner>> as the code makes them (an operation that takes `inner` while it holds `outer`):
+\*   aliveNode / suspectNode / deadNode / refute queue their broadcast under the node lock  nodeLock -> q.mu
+\*   refute and the suspicion paths adjust the health score under the node lock              nodeLock -> awareness
+\*   Leave holds its own lock across deadNode and the wait                                  leaveLock -> nodeLock (-> q.mu)
+\*   Shutdown holds its own lock while it stops the tickers                                 shutdownLock -> tickerLock
+\*   probeNode registers its ack handler, and the handlers' timers fire, under ackLock only (leaf)
+\*   getBroadcasts asks for the cluster size with an atomic load while it holds q.mu         (q.mu is a leaf)
+\*   the keyring lock and the advertise-address lock are leaves, taken without any other lock held
+\* A deadlock needs a cycle in this relation; TLC checks there is none (the transitive closure is irreflexive).
+Locks == {"nodeLock", "q.mu", "awareness", "ackLock", "leaveLock", "shutdownLock", "tickerLock", "k.l", "advertiseLock"}
+Nested == {<<"nodeLock", "q.mu">>, <<"nodeLock", "awareness">>, <<"leaveLock", "nodeLock">>, <<"leaveLock", "q.mu">>,
+           <<"shutdownLock", "tickerLock">>}
+RECURSIVE Reach(_, _)
+Reach(from, seen) ==
+  LET next == {e[2] : e \in {x \in Nested : x[1] \in from}} \ seen IN
+  IF next = {} THEN seen ELSE Reach(next, seen \cup next)
+LockOrderAcyclic == \A k \in Locks : k \notin Reach({k}, {})
+
 \* ---- the model: pick a pair, look at it -------------------------------------------------
 VARIABLES pa, pb
 cvars == <<pa, pb>>
